@@ -138,7 +138,7 @@ def try_miri(res, binname, cases, budget=300):
         chunk = chunk_size()
         # corpus sequence first (references to element 0 of every arena, all arenas cross the first boundary
         # within 700 ops), then generated sequences that hold a reference across a boundary early
-        designed = [c for c in cases if c.get("class") == 9]
+        designed = sorted([c for c in cases if c.get("class") == 9], key=lambda c: -len(c["ops"]))
         gen = sorted([c for c in cases if c.get("class") != 9],
                      key=lambda c: -profile({"ops": c["ops"][:450], "outs": c["outs"][:450]}, chunk)[3])
         picks = [(c, 700) for c in designed[:1]] + [(c, 450) for c in gen[:3]]
